@@ -74,10 +74,10 @@ func buildOnePassDFA(re *syntax.Regexp, nfaEngine *nfa.NFA, config Config) *onep
 		return nil
 	}
 
-	// The one-pass DFA follows a single path by byte lookup: it has no notion of
-	// lazy-versus-greedy priority and does not evaluate \b, \B or line anchors
-	// in the middle of the pattern, so its captures would differ from the NFA's.
-	if hasNonGreedyQuantifier(re) || hasWordBoundary(re) || hasInnerAnchor(re) {
+	// The one-pass DFA follows a single path by byte lookup and does not
+	// evaluate \b, \B or line anchors in the middle of the pattern, so its
+	// captures would differ from the NFA's.
+	if hasWordBoundary(re) || hasInnerAnchor(re) {
 		return nil
 	}
 
